@@ -25,7 +25,8 @@ CONSTANTS Species,    \* lower-cased symbols of plasma species (an element, one 
           Families,   \* families explored in this run
           MaxHist,    \* bound on history length
           SameFamily, \* TRUE: all steps of one behaviour address the same family (cross-family runs use FALSE)
-          MaxMulti    \* max number of keys in one multi-key update (0 = none)
+          MaxMulti,   \* max number of keys in one multi-key update (0 = none)
+          InstFronts  \* install_* front-ends explored (subset of Fronts; {} = none)
 
 VARIABLES store, hist
 vars == <<store, hist>>
@@ -98,6 +99,34 @@ RejectedMulti(f, W, w, S) ==
   /\ store' = [k \in AllKeys |-> IF k \in S THEN w[k] ELSE store[k]]
   /\ Log([op |-> "rejmulti", f |-> f, w |-> {<<k, w[k]>> : k \in W}])
 
+\* ---- the ADF install_* front-ends (cherab/openadas/install.py): parse one ADF file and store every table it holds in one
+\* update_* call.  InstVal is the value id of "the tables of the synthetic file" (the harness writes the file).
+InstVal == 9
+Fronts == {"adf11scd", "adf11acd", "adf11plt", "adf11prb", "adf11prc", "adf11ccd", "adf21", "adf22bmp", "adf22bme"}
+ZOf(s) == CASE s \in {"h", "d", "t"} -> 1 [] s = "he" -> 2 [] OTHER -> 6
+FrontFam(fr) == CASE fr = "adf11scd" -> "ionisation" [] fr = "adf11acd" -> "recombination" [] fr = "adf11plt" -> "line_power"
+                  [] fr = "adf11prb" -> "continuum_power" [] fr = "adf11prc" -> "cx_power" [] fr = "adf11ccd" -> "thermal_cx"
+                  [] fr = "adf21" -> "beam_stopping" [] fr = "adf22bmp" -> "beam_population" [] fr = "adf22bme" -> "beam_emission"
+\* ADF11 files hold one block per ionisation stage Z1 = 1..; ionisation and line power of block Z1 belong to charge Z1 - 1,
+\* recombination, continuum / CX power and thermal CX to charge Z1.  The synthetic file has the blocks of the charges in Charges.
+LowQ(s)  == {q \in Charges : q + 1 <= ZOf(s)}
+HighQ(s) == {q \in Charges : 1 <= q /\ q <= ZOf(s)}
+InstallKeys(fr, s, d) ==
+  CASE fr = "adf11scd" -> {<<"ionisation", s, q>> : q \in LowQ(s)}
+    [] fr = "adf11plt" -> {<<"line_power", s, q>> : q \in LowQ(s)}
+    [] fr = "adf11acd" -> {<<"recombination", s, q>> : q \in HighQ(s)}
+    [] fr = "adf11prb" -> {<<"continuum_power", s, q>> : q \in HighQ(s)}
+    [] fr = "adf11prc" -> {<<"cx_power", s, q>> : q \in HighQ(s)}
+    [] fr = "adf11ccd" -> {<<"thermal_cx", d, 0, s, q>> : q \in HighQ(s)}
+    [] fr = "adf21"    -> {<<"beam_stopping", d, s, 1>>}
+    [] fr = "adf22bmp" -> {<<"beam_population", d, 1, s, 1>>}
+    [] fr = "adf22bme" -> {<<"beam_emission", d, s, 1, "t1">>}
+Install(fr, s, d) ==
+  LET W == InstallKeys(fr, s, d) IN
+  /\ W # {} /\ W \subseteq AllKeys
+  /\ store' = [k \in AllKeys |-> IF k \in W THEN InstVal ELSE store[k]]
+  /\ Log([op |-> "install", front |-> fr, f |-> FrontFam(fr), s |-> s, d |-> d, keys |-> W])
+
 \* a single-entry add/update whose data are invalid: nothing may change
 \* kind: "charge" (charge > Z), "shape" (inconsistent array sizes), "type" (species is not an Element)
 Reject(k, kind, api) ==
@@ -105,7 +134,7 @@ Reject(k, kind, api) ==
   /\ UNCHANGED store
   /\ Log([op |-> "reject", api |-> api, k |-> k, kind |-> kind])
 
-FamOf(e) == IF e.op \in {"multi", "rejmulti"} THEN e.f ELSE e.k[1]
+FamOf(e) == IF e.op \in {"multi", "rejmulti", "install"} THEN e.f ELSE e.k[1]
 FamOK(f) == IF SameFamily /\ Len(hist) > 0 THEN FamOf(hist[1]) = f ELSE TRUE
 
 NextStep ==
@@ -120,6 +149,10 @@ NextStep ==
                 \/ \E S \in SUBSET {k1, k2} : RejectedMulti(f, {k1, k2}, w, S)
   \/ \E k \in AllKeys, kind \in {"charge", "shape", "type"}, api \in Apis :
         /\ FamOK(k[1]) /\ Reject(k, kind, api)
+  \/ \E fr \in InstFronts, s \in Species, d \in Donors :
+        /\ FrontFam(fr) \in Families /\ FamOK(FrontFam(fr))
+        /\ (fr \notin {"adf11ccd", "adf21", "adf22bmp", "adf22bme"} => d = CHOOSE x \in Donors : TRUE)     \* donor irrelevant
+        /\ Install(fr, s, d)
 
 Next ==
   /\ Len(hist) < MaxHist
@@ -130,12 +163,13 @@ Spec == Init /\ [][Next]_vars
 -----------------------------------------------------------------------------
 \* Properties of the model
 
-TypeOK == store \in [AllKeys -> {0} \cup Vals]
+TypeOK == store \in [AllKeys -> {0, InstVal} \cup Vals] /\ InstFronts \subseteq Fronts /\ InstVal \notin Vals
 
 \* keys a history entry may touch
 Touched(e) == CASE e.op = "write"  -> {e.k}
                 [] e.op \in {"multi", "rejmulti"} -> {p[1] : p \in e.w}
                 [] e.op = "reject" -> {}
+                [] e.op = "install" -> e.keys
 
 \* last write wins, per key: the stored id is the one of the last history entry touching the key
 LastValue(k) ==
@@ -143,7 +177,7 @@ LastValue(k) ==
   IF idx = {} THEN 0
   ELSE LET i == CHOOSE j \in idx : \A jj \in idx : jj <= j
            e == hist[i]
-       IN IF e.op = "write" THEN e.v ELSE (CHOOSE p \in e.w : p[1] = k)[2]
+       IN IF e.op = "write" THEN e.v ELSE IF e.op = "install" THEN InstVal ELSE (CHOOSE p \in e.w : p[1] = k)[2]
 
 \* histories with a partially applied (rejected) multi-update are excluded: their outcome is a set
 LastWriteWins == (\A i \in 1..Len(hist) : hist[i].op # "rejmulti") => \A k \in AllKeys : store[k] = LastValue(k)
